@@ -916,6 +916,61 @@ fn rename_expr(e: &Expr, map: &dyn Fn(&str) -> String) -> Expr {
 /// do the results of an expression depend on prefix *strings* (name() of prefixed nodes, namespace axis names)?
 fn mentions_prefix_strings(e: &Expr) -> bool { let f = xp::feature_set(e); f.iter().any(|x| x == "fn:name" || x == "axis:namespace") }
 
+/// edit a live document (move a subtree under other declarations, add / change / remove declarations) and compare the
+/// expanded names and name tests it reports with those of a fresh parse of its serialization
+fn c10_edits(ctx: &mut Ctx, d: u64, r: &mut Rng, case: &XCase) {
+    use crate::dompool::{Op, Outcome as DOut, Pool, K};
+    let live = match crate::props::domp::live_doc(&case.text) { Ok(l) => l, Err(_) => return };
+    let mut pool = Pool::new(vec![live.dom.clone()]);
+    // element lines, attribute lines without their value, in-scope namespace lines: the namespace-related part of the observation
+    let only_names = |d: String| -> String { d.lines().filter_map(|l| match l.chars().next() { Some('E') | Some('I') => Some(l.to_string()), Some('A') => Some(l.splitn(6, ' ').take(5).collect::<Vec<_>>().join(" ")), _ => None }).collect::<Vec<_>>().join("\n") };
+    let names = |doc: &xml_dom::XmlDocument| -> Result<String, String> { match guarded(|| crate::obs::dump_tree(doc, model::DumpOpt { merged: false, ..OPT_NS })) { Caught::Ok(r) => r.map(&only_names), Caught::Panic { file, msg } => Err(format!("PANIC {}/{}", file, msg)), Caught::Budget(_) => Err("steps".into()) } };
+    // resolve every name once and run a query, so that whatever the library caches is warm
+    let _ = names(&live.dom);
+    let _ = xmlrs_eval(&subject_of(live.dom.clone()), "//*", &[], None, STEP_BUDGET);
+    let _ = names(&live.dom);
+    let elems: Vec<usize> = (0..pool.h.len()).filter(|&i| pool.h[i].kind == K::Element).collect();
+    if elems.is_empty() { return; }
+    let steps = r.range(1, 3);
+    let mut log: Vec<String> = vec![];
+    for _ in 0..steps {
+        let e = *r.pick(&elems);
+        let (kind, op) = match r.below(5) {
+            0 | 1 => { let c = *r.pick(&elems); ("move-subtree", Op::AppendChild { p: e, c }) }
+            2 => ("declare-prefix", Op::SetAttribute { e, name: format!("xmlns:{}", r.pick_s(&["p", "q", "r", "n1"])), value: r.pick_s(model::URIS).to_string() }),
+            3 => ("declare-default", Op::SetAttribute { e, name: "xmlns".into(), value: if r.chance(1, 3) { String::new() } else { r.pick_s(model::URIS).to_string() } }),
+            _ => ("remove-declaration", Op::RemoveAttribute { e, name: r.pick_s(&["p", "q", "r", "xmlns"]).to_string() }),
+        };
+        let desc = pool.describe_op(&op);
+        ctx.evaluations += 1;
+        match pool.apply(&op) { DOut::Ok(_) => {} DOut::Err(_) => { ctx.count("edit/refused"); continue; } DOut::Panic(_) => { ctx.count("panic(see C13)"); return; } }
+        log.push(desc.clone());
+        ctx.count(&format!("edit/{}", kind));
+        // names first (before anything asks for document order), then queries
+        let live_names = names(&live.dom);
+        let ser = live.dom.to_string();
+        let fresh = match crate::props::domp::live_doc(&ser) { Ok(f) => f, Err(_) => { ctx.inconclusive("edited_document_not_reparsable"); return; } };
+        let fresh_names = names(&fresh.dom);
+        if live_names != fresh_names {
+            let detail = match (&live_names, &fresh_names) { (Ok(a), Ok(b)) => crate::util::first_diff(b, a), (a, b) => format!("live {:?} vs re-parsed {:?}", a.as_ref().map(|_| "ok"), b.as_ref().map(|_| "ok")) };
+            ctx.violation(d, &format!("C10/edit/{}/names", kind), &format!("after {:?} the live document reports other expanded names / in-scope namespaces than a fresh parse of its serialization: {} :: serialization {} :: doc {}", log, detail, ser, case.text), &[("doc", &case.text), ("history", &log.join("\n"))]);
+            return;
+        }
+        let bind: Vec<(String, String)> = model::URIS.iter().enumerate().map(|(i, u)| (format!("c{}", i), u.to_string())).collect();
+        // queries see the merged-text view (adjacent text pieces coalesce on a re-parse, as in C14)
+        live.set_merged(true); fresh.set_merged(true);
+        let (ls, fs) = (subject_of(live.dom.clone()), subject_of(fresh.dom.clone()));
+        for q in ["//*", "//c0:*", "//c1:*", "//c2:*", "//c3:*", "//@c0:*", "//@c1:*", "//@*", "//c0:a | //c1:b | //c2:c", "count(//*[namespace-uri() = ''])", "//*[name() != local-name()]"] {
+            let (a, _) = xmlrs_eval(&ls, q, &bind, None, STEP_BUDGET);
+            let (b, _) = xmlrs_eval(&fs, q, &bind, None, STEP_BUDGET);
+            ctx.count("edit/requery");
+            if matches!(a, Outcome::Panic(_) | Outcome::Steps) { break; }
+            if let Some(k) = diff(&b, &a) { live.set_merged(false); ctx.violation(d, &format!("C10/edit/{}/nametest/{}", kind, k), &format!("{} gives {} on the edited document but {} on a fresh parse of {} :: history {:?} :: doc {}", q, a.brief(), b.brief(), ser, log, case.text), &[("doc", &case.text), ("history", &log.join("\n")), ("expr", q)]); return; }
+        }
+        live.set_merged(false);
+    }
+}
+
 pub const OPT_NS: model::DumpOpt = model::DumpOpt { merged: true, ns: true, prolog: false, specified: false, reflevel: false };
 
 pub fn c10(ctx: &mut Ctx) {
@@ -1028,6 +1083,8 @@ pub fn c10(ctx: &mut Ctx) {
                 if let Some(kind) = diff(&g1, &g2) { ctx.violation(d, &format!("C10/rename/caller-default/{}", kind), &format!("{} gives {}; {} gives {} (default {}) :: doc {}", estr, g1.brief(), s2, g2.brief(), dflt, case.text), &[("doc", &case.text), ("expr", &estr)]); }
             }
         }
+        // (d) the same holds for a document that has been edited through the DOM: names are resolved in the tree as it is now
+        c10_edits(ctx, d, &mut r, &case);
     }
 }
 // ------------------------------------------------------------------------------------------------
